@@ -24,11 +24,12 @@ MANIFEST_INFO = {
     "engine": "D",
     "design_ref": "DESIGN.md section 5, C15",
     "technique": "exhaustive enumeration of Spinner.run histories (function shape x firing time relative to the timeout x leftovers x signal handlers x 1-3 runs per Spinner) on the real SelectReactor under a virtual clock; tie order of simultaneous calls and the instant of an external interrupt are chooser choice points explored by stateless DFS; timeline reference model",
-    "level_text": "Every 1- and 2-run history over 16 function shapes (5 signal/stop-wrapper configurations for single runs) (return/raise/Deferred firing or failing before, at, after the timeout or never/stop requested by the function/re-entry) x 5 leftover shapes x clear_junk or not, and every 3-run history over a reduced alphabet, is executed on one Spinner with every tie order and every interrupt instant (<=1 per run); result, exception type, junk accounting, reactor cleanliness, reactor.stop identity and the three signal handlers are checked against the model after every run.",
+    "level_text": "Every 1- and 2-run history over 16 function shapes (5 signal/stop-wrapper configurations for single runs) (return/raise/Deferred firing or failing before, at, after the timeout or never/stop requested by the function/re-entry) x 5 leftover shapes x clear_junk or not (timeout 2; single runs also with timeouts 0 and 1), 2- and 3-run histories in which the Deferred of a run that ended without it fires or fails before the next run starts, and every 3-run history over a reduced alphabet, is executed on one Spinner with every tie order and every interrupt instant (<=1 per run); result, exception type, junk accounting, reactor cleanliness, reactor.stop identity and the three signal handlers are checked against the model after every run.",
     "level_note": "The real reactor code runs on a virtual clock (seconds()/doIteration() overridden): the installed wall-clock global reactor is not used because the relative order of 'Deferred fires' and 'timeout fires' could not be owned there. Interrupts are delivered between reactor iterations (every distinct instant), not between two calls due at the same instant.",
 }
 
 TIMEOUT = 2.0
+_TIMEOUT = [TIMEOUT]  # the timeout of the scenario being executed
 
 
 class FnError(Exception):
@@ -77,7 +78,8 @@ class RunRecord:
     pass
 
 
-def make_function(reactor, spinner, spec, rec, run_index):
+def make_function(reactor, spinner, spec, rec, run_index, timeout=None):
+    TIMEOUT = _TIMEOUT[0]
     kind = spec[0]
     extra = spec[1]
     rec.calls = []
@@ -102,7 +104,8 @@ def make_function(reactor, spinner, spec, rec, run_index):
         if k == "raise":
             raise FnError("run%d" % run_index)
         if k == "never":
-            return defer.Deferred()
+            rec.deferred = defer.Deferred()
+            return rec.deferred
         if k == "reenter":
             return spinner.run(TIMEOUT, lambda: None)
         if k == "reenter_survived":
@@ -120,19 +123,20 @@ def make_function(reactor, spinner, spec, rec, run_index):
         if k == "fire":
             if kind[1] == 0:
                 return defer.succeed(("value", run_index))
-            d = defer.Deferred()
+            d = rec.deferred = defer.Deferred()
             rec.calls.append(reactor.callLater(kind[1], d.callback, ("value", run_index)))
             return d
         if k == "fail":
             if kind[1] == 0:
                 return defer.fail(FnError("run%d" % run_index))
-            d = defer.Deferred()
+            d = rec.deferred = defer.Deferred()
             rec.calls.append(reactor.callLater(kind[1], d.errback, FnError("run%d" % run_index)))
             return d
         if k == "stop":
             # the function itself asks the reactor to stop (as a signal handler would)
             rec.calls.append(reactor.callLater(kind[1], reactor.stop))
-            return defer.Deferred()
+            rec.deferred = defer.Deferred()
+            return rec.deferred
         raise AssertionError(kind)
 
     return fn
@@ -140,6 +144,7 @@ def make_function(reactor, spinner, spec, rec, run_index):
 
 def model_outcomes(spec, run_index, interrupt_at):
     """Set of acceptable observations for one run on a clean spinner."""
+    TIMEOUT = _TIMEOUT[0]
     kind = spec[0]
     k = kind[0]
     val = ("value", ("value", run_index))
@@ -179,7 +184,8 @@ def observe(fn):
 
 def execute(scenario, chooser):
     """scenario = (signal config name, [(kind, extra, clear_before)], ...)"""
-    sigcfg, runs = scenario
+    sigcfg, runs = scenario[:2]
+    TIMEOUT = _TIMEOUT[0] = scenario[2] if len(scenario) > 2 else 2.0
     gc.disable()
     reactor = vreactor.get_reactor()
     problems = []
@@ -195,8 +201,18 @@ def execute(scenario, chooser):
     try:
         spinner = Spinner(reactor)
         model_junk_pending = False
-        for idx, (kind, extra, clear_before) in enumerate(runs):
+        prev = None
+        for idx, run in enumerate(runs):
+            kind, extra, clear_before = run[:3]
+            late = run[3] if len(run) > 3 else None
             spec = (kind, extra)
+            if late and prev is not None and getattr(prev, "deferred", None) is not None and not prev.deferred.called:
+                # the previous run's Deferred fires after all, while no run is in progress
+                if late == "cb":
+                    prev.deferred.callback(("late", idx - 1))
+                else:
+                    prev.deferred.addErrback(lambda f: None)  # (somebody is still looking after it)
+                    prev.deferred.errback(FnError("late%d" % (idx - 1)))
             if clear_before:
                 spinner.clear_junk()
                 model_junk_pending = False
@@ -210,6 +226,7 @@ def execute(scenario, chooser):
                 reactor.stop = app_stop
                 real_stop = app_stop
             fn = make_function(reactor, spinner, spec, rec, idx)
+            prev = rec
             reactor.arm(chooser, max_interrupts=1, ties=True)
             before_calls = list(reactor.getDelayedCalls())
             o = observe(lambda: spinner.run(TIMEOUT, fn))
@@ -302,6 +319,20 @@ def scenarios(tier):
     small = [(k, e) for k in SMALL_KINDS for e in SMALL_EXTRAS]
     mid = [KINDS[0], ("fire", 1), ("fire", 2), ("fire", 3), ("fail", 0), ("fail", 1), ("stop", 1), ("never",)]
     three = [(k, e) for k in mid for e in ("none", "junk_after")] if tier == "quick" else [(k, e) for k in KINDS for e in ("none", "junk_after", "selectable")]
+    # the shortest timeout: whatever the function returns synchronously still wins
+    for k, e in specs:
+        out.append(("default", ((k, e, False),), 0))
+    for (k1, e1), (k2, e2) in itertools.product(small, repeat=2):
+        out.append(("default", ((k1, e1, False), (k2, e2, True)), 0))
+    for k, e in specs:
+        out.append(("default", ((k, e, False),), 1.0))
+    # a Deferred that did not fire during its run fires (or fails) before the next run starts
+    for k1 in (("never",), ("fire", 3), ("fail", 3), ("stop", 1)):
+        for k2 in KINDS:
+            for late in ("cb", "eb"):
+                out.append(("default", ((k1, "none", False), (k2, "none", True, late))))
+                for k3 in (("stop", 1), ("ret",), ("never",)):
+                    out.append(("default", ((k1, "none", False), (k2, "none", True, late), (k3, "none", True, late))))
     for a, b, c in itertools.product(three, repeat=3):
         for c1, c2 in itertools.product((False, True), repeat=2):
             out.append(("mixed", ((a[0], a[1], False), (b[0], b[1], c1), (c[0], c[1], c2))))
@@ -352,18 +383,18 @@ class _W:
 
 
 def _enc(sc):
-    return [sc[0], [[list(k), e, c] for k, e, c in sc[1]]]
+    return [sc[0], [[list(r[0])] + list(r[1:]) for r in sc[1]]] + list(sc[2:])
 
 
 def _dec(d):
-    return (d[0], tuple((tuple(k), e, c) for k, e, c in d[1]))
+    return (d[0], tuple((tuple(r[0]),) + tuple(r[1:]) for r in d[1])) + tuple(d[2:])
 
 
 def meta(tier):
     return {
         "technique": MANIFEST_INFO["technique"],
         "rule": "scenario = (signal handler config, 1..3 (function shape, leftovers, clear_junk-before) runs on one Spinner); for each scenario all tie orders and interrupt instants (<=1 per run, <=3 deviations) are explored; every execution counts; non-trivial/distinct = distinct (scenario, choices, observations)",
-        "bounds": {"timeout": TIMEOUT, "delays": [0, 1, 2, 3], "function_shapes": len(KINDS), "leftover_shapes": len(EXTRAS), "runs_per_spinner": 3, "interrupts_per_run": 1, "signal_configs": list(SIGNAL_CONFIGS)},
+        "bounds": {"timeout": [2.0, 0, 1.0], "late_firing_between_runs": ["callback", "errback"], "delays": [0, 1, 2, 3], "function_shapes": len(KINDS), "leftover_shapes": len(EXTRAS), "runs_per_spinner": 3, "interrupts_per_run": 1, "signal_configs": list(SIGNAL_CONFIGS)},
         "assumptions": [
             "virtual clock on the real SelectReactor code; selectables never become ready",
             "at the instant where the Deferred fires and the timeout elapses together, either result is accepted (both orders are explored)",
